@@ -232,7 +232,10 @@ impl<T> Queue<T> {
                         // we have to wait if there is enough data
                         // if no any more produce, this will be a dead loop
                         while pop_index >= self.tail.index.load(Ordering::Acquire) {
+                            #[cfg(not(may_verif))]
                             std::thread::sleep(std::time::Duration::from_millis(10));
+                            #[cfg(may_verif)]
+                            crate::verif::sleep(std::time::Duration::from_millis(10));
                         }
                     }
                     // get the data
@@ -387,7 +390,10 @@ impl<T> Queue<T> {
                         // except for the ABA situation
                         // if no any more data pushed, this will be a dead loop
                         while end > self.tail.index.load(Ordering::Acquire) {
+                            #[cfg(not(may_verif))]
                             std::thread::sleep(std::time::Duration::from_millis(10));
+                            #[cfg(may_verif)]
+                            crate::verif::sleep(std::time::Duration::from_millis(10));
                         }
                     }
 
